@@ -189,10 +189,26 @@ def observe(ctx: fw.Ctx, hists):
             to = [t for (k, t, _, _) in __import__("harness.layout", fromlist=["x"]).leaves_of(r.out)[0]]
             if tw != to:
                 key = {"clause": "defining-binding", "wrapper": h.info.get("wrapper"), "resolves": res[0],
-                       "binder": binder_kind(res)}
+                       "binder": binder_kind(res), "separated": separated(res, before)}
                 ctx.fail(key, {"doc": h.text, "ops": [list(x.op) for x in h.recs], "at": list(r.op), "before": before,
                                "output": r.out, "expected": want},
                          f"set {r.op[1]!r} through reference {name!r} on {before!r}: got {r.out!r}, expected {want!r}")
+
+
+def separated(res, before) -> bool:
+    """is the defining let layer separated from the edited set by another wrapper (lambda, call,
+    with, assert, parenthesis)? Such layers are lifted onto the wrapper, not onto the set."""
+    if res[0] != "binding":
+        return False
+    holder = res[1].parent.parent
+    if holder.type != "let_expression":
+        return False
+    tgt = cstread.find_target(cstread.ts_parse(before))
+    # walk down from the let's body through directly nested lets only
+    node = holder.child_by_field_name("body")
+    while node is not None and node.type == "let_expression":
+        node = node.child_by_field_name("body")
+    return not (node is not None and tgt is not None and node.start_byte == tgt.start_byte and node.end_byte == tgt.end_byte)
 
 
 def binder_kind(res):
@@ -223,7 +239,9 @@ def run(ctx: fw.Ctx):
         hists.append(ec.run_real(text, [("set", path, '"NEW"'), ("set", path, '"NEWER"')], info))
     stride, nrand = (11, 500) if ctx.quick else (2, 8000)
     hists += ep.build_stream(ctx, stride, nrand, 8, enum_offset=6)
-    ec.correspond(ctx, hists)
+    # The edit model's resolver sees the let layers and the `rec` self scope; scopes inherited from a
+    # wrapper (a literal `with` environment) are C10's model: those documents go to the oracle only.
+    ec.correspond(ctx, [h for h in hists if h.info.get("wrapper") != "with-lit"])
     observe(ctx, hists)
 
 
